@@ -174,7 +174,12 @@ def check(ctx):
     loops = [s for s in cfg.stmts if isinstance(s, ast.For)
              and reserved and any(x is reserved[0] for x in ast.walk(s))]
     ok = (len(reserved) == 1 and len(builds) == 1 and len(loops) == 1
-          and cfg.dominates(loops[0], builds[0]) and ast.unparse(loops[0].iter) == "nodes")
+          and cfg.dominates(loops[0], builds[0]))
+    trav0 = ("proj", ("call", ("a", SELF, "_all_nodes_and_vars"), (), ()), 0)
+    ok = ok and any(
+        any(a[0] == "call" and a[1][0] == "a" and a[1][2] == "startswith"
+            and a[1][1] == ("a", ("iter", trav0), "name") and p for a, p in rc)
+        for rc, _, _ in rb.raises)
     ctx.ob("C15.R3", bm, "user nodes named '_model*' are rejected for ALL collected nodes "
                          "before the model is constructed", ok, stmt="reserved names")
     dsn = method(repo, gb, "_do_set_missing_names", own=True)
